@@ -453,6 +453,11 @@ func (x *exec) field(objType *ast.Definition, obj *univ.Val, fdef *ast.FieldDefi
 	case univ.FaultPanic:
 		x.addErr(path, "panic:"+univ.PanicText(k))
 		return fail()
+	case univ.FaultErrList:
+		for i := 0; i < univ.ErrListN; i++ {
+			x.addErr(path, fmt.Sprintf("resolver:%s#%d", univ.ErrText(k), i))
+		}
+		return fail()
 	}
 	var sel ast.SelectionSet
 	for _, n := range nodes {
@@ -957,6 +962,12 @@ func ExecuteSubscription(env *univ.Env, plan univ.Plan, doc *ast.QueryDocument, 
 		return []*Result{x.res}
 	case univ.FaultPanic:
 		x.addErr(path, "panic:"+univ.PanicText(k))
+		x.finish()
+		return []*Result{x.res}
+	case univ.FaultErrList:
+		for i := 0; i < univ.ErrListN; i++ {
+			x.addErr(path, fmt.Sprintf("resolver:%s#%d", univ.ErrText(k), i))
+		}
 		x.finish()
 		return []*Result{x.res}
 	}
